@@ -31,6 +31,9 @@ func runC07(p *eng.Prog, r *eng.Report, tier string) {
 	attrGetNotUsed(c, "C07.12")
 	serveCtxRootedInBackground(c, "C07.15")
 	depthCountersDoNotWrap(c, "C07.16")
+	// C07.17 a handler that could read past its element swallows the next
+	// request, which then goes unanswered (= C08.2)
+	c08ReaderAs(c, "C07.17")
 	jidCore(c, "C07.14")
 	// the multiplexer's fallback answers with the id and type that stanza.NewIQ
 	// read: the request's own attributes (C14.6)
